@@ -151,6 +151,17 @@ Proof.
     + destruct (_ =? _); [|discriminate]. destruct (IH a Hw) as [H|H]; [left; right; exact H|left; left; symmetry; exact H].
 Qed.
 
+Lemma remove_upto_sub e : forall rs rs' y, ranges_remove_upto e rs = Some rs' -> In y (ranges_all rs') -> In y (ranges_all rs).
+Proof.
+  induction rs as [|r t IH]; intros rs' y E Hy.
+  - cbn in E. injection E as <-. exact Hy.
+  - cbn in E. destruct (range_remove e r) as [r'|] eqn:Er; [|discriminate].
+    destruct (ranges_remove_upto e t) as [t'|] eqn:Et; [|discriminate]. injection E as <-.
+    cbn in Hy. apply in_app_or in Hy. cbn. apply in_or_app. destruct Hy as [Hy|Hy].
+    + left. eapply range_remove_sub; eassumption.
+    + right. eapply IH; [reflexivity|exact Hy].
+Qed.
+
 Lemma flow_l a c y :
   pc_ok (c_loop c) -> In y (all_hdrs (l_step a c)) -> In y (all_hdrs c) \/ In y (enters c (EL a)).
 Proof.
@@ -163,7 +174,10 @@ Proof.
       unfold ranges_all. apply in_flat_map. exists r. split; assumption. }
     assert (Hp' : p = y -> In y (ranges_all (c_pend c))) by (intros <-; exact Hp).
     left. mem.
-  - destruct (_ <=? _); intros H; left; mem.
+  - destruct (_ <=? _); [|intros H; left; mem].
+    destruct (ranges_remove_upto (h_height (c_cache c)) (c_pend c)) as [rs|] eqn:Eu; [|intros H; left; mem].
+    assert (Hsub : In y (ranges_all rs) -> In y (ranges_all (c_pend c))) by (apply (remove_upto_sub _ _ _ y Eu)).
+    intros H. left. mem.
   - pose proof (ranges_first_all (c_pend c)) as Ef.
     destruct (ranges_first (c_pend c)) as [|r t] eqn:E; intros H; left; unfold all_hdrs, ranges_all in *; cbn in *; rewrite <- ?Ef; mem.
   - destruct (c_pend c) as [|r t] eqn:EP; [intros H; left; mem|].
